@@ -97,8 +97,10 @@ def gen_cfg(rng: random.Random, focus: str | None = None) -> tuple[LoopCfg, Prof
             cls = {k: rng.choice([1, 2]) for k in CLASSES if rng.random() < 0.15}
             c.breaker = {"threshold": rng.choice([1, 1, 2, 3]), "window": rng.choice([1, 10, 100]),
                          "recovery": rng.choice([1, 5, 50]), "trip": trip, "cls": cls}
-    if c.kind in ("RetryPolicy", "decorator"):
+    if c.kind == "decorator":
         flags -= {"p_attempt_start", "p_attempt_end"}
+    # (RetryPolicy's constructor takes no attempt hooks: they are assigned through the wrapper afterwards —
+    # `RetryPolicy.__setattr__` must forward them to the Retry component; loopenv.build)
     if c.kind == "decorator":
         flags -= {"c_handler", "c_before_sleep", "c_sleeper", "timeline"}
         if not c.operation:
@@ -275,6 +277,12 @@ def compare(cr: CaseRun, d: dict) -> CaseVerdict:
                 v.first_div = f"step {k} timeline: impl {itl} vs model {mtl}"
         if cr.steps[k].notes.get("tb_ok") is False:
             v.monitor_fail.append(("C04", "traceback", k))
+        res_k = cr.steps[k].res
+        if res_k.startswith("raise unexpected:") and not res_k.startswith("raise unexpected:construction"):
+            # the entry point surfaced an exception that is neither an object the operation / a callback raised, nor a
+            # cancellation kind, nor one of the library's own documented errors: "never … a substitute" (C04, call());
+            # execute() "does not raise for failures" (C11)
+            v.monitor_fail.append(("C11" if cr.steps[k].entry.endswith("execute") else "C04", "substitute_exception", k))
     ms = d.get("mstate") or ""
     ms_core = " ".join(t for t in ms.split() if not t.startswith("unused="))
     if ms_core != cr.final_state:
@@ -521,10 +529,13 @@ def same_entry_variants(cfg: LoopCfg, script: list, exchanges) -> list[tuple[str
         c = copy.copy(cfg)
         c.via_context = not cfg.via_context
         out.append(("context" if c.via_context else "no-context", c))
-    plain = (cfg.breaker is None and not cfg.has("no_retry") and not (cfg.flags & {"p_attempt_start", "p_attempt_end"}))
+    plain = cfg.breaker is None and not cfg.has("no_retry")
+    p_hooks = bool(cfg.flags & {"p_attempt_start", "p_attempt_end"})     # (the decorator fixes them at decoration time)
     if cfg.kind in ("Policy", "RetryPolicy", "decorator") and plain:
         for kind in ("Policy", "RetryPolicy", "decorator"):
             if kind == cfg.kind:
+                continue
+            if p_hooks and "decorator" in (kind, cfg.kind):
                 continue
             if kind == "decorator" and (cfg.flags & {"c_handler", "c_before_sleep", "c_sleeper", "timeline"}
                                         or not cfg.operation or cfg.via_context
